@@ -60,7 +60,7 @@ func c12OpType(c *core.Ctx, op string, t reflect.Type) {
 			if mode == "incr" && !model.IsNumber(t) {
 				continue
 			}
-			for li, lay := range gen.RowLayouts {
+			for li, lay := range gen.ElemLayouts {
 				for si, shape := range c12Shapes(c.Tier) {
 					for vi, vc := range vcs {
 						if mode != "safe" && (vi+li+si+rep)%2 == 1 {
